@@ -296,7 +296,7 @@ def history(rng, version, length, profile):
         other = rng.choice([x for x in nodes if x != n])
         c1, c2 = rng.sample([0, 1, 2], 2)
         vt1 = rng.choice([2, 3, 23, 24, 47, 22])
-        vt2 = rng.choice([0, 24, 16])
+        vt2 = rng.choice([0, 24, 16, 1, 1])      # incl. V_HUM (1): the same number as I_TIME among the internal sub-types
         vals = [set_value_for(rng, version, vt1, unicode_ok=False) for _ in range(3)]
         pv = rng.choice([version, "1.4", "1.5", "2.0", "2.2"])
         if rng.random() < 0.5 and pv in spec.VERSIONS and spec.rule_for(pv, 1, vt1) is not None:
